@@ -27,9 +27,10 @@ type c18Case struct {
 }
 
 type c18Dir struct {
-	Path string `json:"path"`           // relative to the sandbox
-	Root bool   `json:"root"`           // has regex-assembly (with distinct content)
-	Link bool   `json:"link,omitempty"` // its regex-assembly is a symbolic link to a directory next to it
+	Path  string `json:"path"`            // relative to the sandbox
+	Root  bool   `json:"root"`            // has regex-assembly (with distinct content)
+	Link  bool   `json:"link,omitempty"`  // its regex-assembly is a symbolic link to a directory next to it
+	NoCfg bool   `json:"nocfg,omitempty"` // the root has no toolchain.yaml (nothing is inserted into cmdline blocks)
 }
 
 var c18Grammar = regexp.MustCompile(`^(\d{6})(?:-chain(\d+))?(?:\.ra)?$`)
@@ -233,6 +234,9 @@ func c18Root(env *core.Env, c *c18Case) core.Verdict {
 				"regex-assembly/toolchain.yaml": cfg.yaml(),
 				"regex-assembly/include/":       "",
 			}
+			if d.NoCfg {
+				delete(t, "regex-assembly/toolchain.yaml")
+			}
 			if d.Link {
 				lt := sut.Tree{"regex-assembly": sut.SymlinkPrefix + "assembly-kept-elsewhere"}
 				for k, s := range t {
@@ -256,6 +260,12 @@ func c18Root(env *core.Env, c *c18Case) core.Verdict {
 	}
 	cwd := filepath.Join(sandbox, c.Cwd)
 	_ = os.MkdirAll(cwd, 0o755)
+	// a configuration file in the working directory is not the configuration of the root
+	_ = os.WriteFile(filepath.Join(cwd, "toolchain.yaml"), []byte(evasionCfg{Unix: "_cwddecoy_", Windows: "w", SuffixUnix: "s", SuffixWindows: "s", NoSpUnix: "n", NoSpWindows: "n"}.yaml()), 0o644)
+	// a link below one root that points into the depth of another checkout: resolution follows the path as given
+	_ = os.MkdirAll(filepath.Join(sandbox, "elsewhere", "deep", "dir", "below"), 0o755)
+	_ = (sut.Tree{"elsewhere/regex-assembly/932100.ra": "elsewheremark\n", "elsewhere/regex-assembly/932101.ra": "##!> cmdline unix\nab\n##!<\n", "elsewhere/regex-assembly/include/": ""}).Write(sandbox)
+	_ = os.Symlink(filepath.Join(sandbox, "elsewhere", "deep", "dir"), filepath.Join(sandbox, "outer", "a", "b", "lnk"))
 	// model
 	expect := -1
 	var args []string
@@ -314,6 +324,9 @@ func c18Root(env *core.Env, c *c18Case) core.Verdict {
 		want := fmt.Sprintf("root%dmark", expect)
 		if rule == "932101" {
 			want = fmt.Sprintf("a_ev%d_b", expect)
+			if c.Dirs[expect].NoCfg {
+				want = "ab"
+			}
 		}
 		if r.Exit != 0 || string(r.Stdout) != want {
 			return core.Viol("wrong-root", "-d %q (abs=%v) from cwd %q with roots %v must resolve to %q; generate %s: %s (expected %q)", c.Start, c.Abs, c.Cwd, roots, c.Dirs[expect].Path, rule, describe(r), want)
@@ -548,7 +561,14 @@ func c18Cases(env *core.Env, rng *rand.Rand) []core.Case {
 				}
 			}
 		}
-		starts := []string{"outer", "outer/a", "outer/a/b", "outer/a/b/inner", "outer/a/b/inner/c", "outer/a/b/inner/c/d", "outer/a/b/inner/c/d/e", "beside", "beside/x/y",
+		if i%6 == 2 {
+			for k := range c.Dirs {
+				if c.Dirs[k].Root && core.Chance(rng, 1, 2) {
+					c.Dirs[k].NoCfg = true
+				}
+			}
+		}
+		starts := []string{"outer/a/b/lnk", "outer/a/b/lnk/below", "outer", "outer/a", "outer/a/b", "outer/a/b/inner", "outer/a/b/inner/c", "outer/a/b/inner/c/d", "outer/a/b/inner/c/d/e", "beside", "beside/x/y",
 			"outer/rules", "outer/regex-assembly", "outer/regex-assembly/include", "outer/a/b/inner/regex-assembly", "outer/a/nonexistent/deeper", "outer/a/b/inner/c/missing",
 			"outer/a/other", "outer/a/other/z", "", "", "outer/a/b/inner/c/d/e/../../..", "outer/a/b/../b/inner"}
 		c.Start = starts[rng.Intn(len(starts))]
@@ -573,7 +593,7 @@ func init() {
 		ID:    "C18",
 		Level: "fault_enumeration",
 		Rule: "(1) grammar table, enumerated: arguments 932100-chainK for every K in 0..300 (every seventh with .ra), offsets at and beyond uint8/uint16/uint32/uint64 (2^64-1, 2^64, 2^64+1, 20 and 23 digits), leading zeros, ids of 5/7 digits, trailing junk, one arbitrary character in place of the extension's dot, .raa/.ra.ra, blanks, signs, upper case, non-ASCII digits, path-like forms, the empty string (thorough: plus 1500 PRNG arguments built from grammar fragments). The tree holds a rule with a chain of 300, and every assembly file and every chain position carries a distinct token, so the line that `update ARG` changes and the text it writes identify the resolved (file, rule id, offset); rejected arguments must exit non-zero and change nothing; `generate ARG` must equal `generate -` on the same bytes; compare must resolve like update. " +
-			"(1b) update --all and compare --all on the same tree (with and without the files whose offset is above 255): such files make the run fail and their content never lands on any rule, files outside the grammar are skipped. (1c) `generate ARG` against `generate -` on the same bytes for awkward contents (byte order mark at the start and inside, CRLF, missing final newline, empty, NUL, invalid UTF-8, directives on the first line). (2) `format ARG` with rule ids, include names and near misses: exactly the file predicted by the grammar model changes. (3) root resolution: nested roots (a quarter of the trees with regex-assembly being a symbolic link to a directory) with distinct content and distinct toolchain.yaml, -d at depth 0..4 below or beside, relative/absolute, spelled with dots, doubled and trailing separators, non-existent tails, inside regex-assembly, and no -d with various working directories; the printed regex identifies which root and which configuration were used. Non-trivial = every args/format batch and every root case with >= 2 roots.",
+			"(1b) update --all and compare --all on the same tree (with and without the files whose offset is above 255): such files make the run fail and their content never lands on any rule, files outside the grammar are skipped. (1c) `generate ARG` against `generate -` on the same bytes for awkward contents (byte order mark at the start and inside, CRLF, missing final newline, empty, NUL, invalid UTF-8, directives on the first line). (2) `format ARG` with rule ids, include names and near misses: exactly the file predicted by the grammar model changes. (3) root resolution: nested roots (a quarter of the trees with regex-assembly being a symbolic link to a directory, a sixth with roots that have no toolchain.yaml while the working directory holds one, a link below one root pointing into the depth of another checkout) with distinct content and distinct toolchain.yaml, -d at depth 0..4 below or beside, relative/absolute, spelled with dots, doubled and trailing separators, non-existent tails, inside regex-assembly, and no -d with various working directories; the printed regex identifies which root and which configuration were used. Non-trivial = every args/format batch and every root case with >= 2 roots.",
 		Cases:         c18Cases,
 		Check:         c18Check,
 		Decode:        decoder[c18Case](),
